@@ -13,7 +13,6 @@ import (
 	"path"
 	"strconv"
 	"strings"
-	"unicode"
 
 	"github.com/go-text/typesetting/font"
 	ot "github.com/go-text/typesetting/font/opentype"
@@ -149,16 +148,6 @@ func (e *c05env) one(c *c05case) {
 	if e.class == "use-or-default" {
 		r.Count("outside_domain_R10_use_scripts", 1)
 		return
-	}
-	// R11: a combining mark in a run where a one-to-many substitution happened (mark attachment to MultipleSubst sequences was
-	// reworked upstream after 6.0.0; difference seen on Estedad-VF: yeh + fathatan + yeh)
-	if len(want) > c.End-c.Start || len(got.Info) > c.End-c.Start {
-		for _, ru := range c.Text[c.Start:c.End] {
-			if unicode.Is(unicode.Mn, ru) {
-				r.Count("outside_domain_R11_mark_with_multiple_substitution", 1)
-				return
-			}
-		}
 	}
 	// R12: SOFT HYPHEN on a face mapping it to a glyph (kerning against a default ignorable; 6 units on Raleway)
 	for _, ru := range c.Text[c.Start:c.End] {
@@ -335,32 +324,6 @@ func (e *c05env) font(sf *shFont, maxLen int, thorough bool) {
 	}
 	e.setVar(0)
 	r.Count("faces", 1)
-}
-
-// shaperClass names the complex shaper HarfBuzz selects for the script (the unit of the domain rule)
-func shaperClass(sf *shFont, sc language.Script) string {
-	if sf.hasMorx {
-		return "aat"
-	}
-	switch sc {
-	case language.Arabic, language.Syriac, language.Mongolian, language.Nko, language.Adlam, language.Hanifi_Rohingya, language.Mandaic, language.Manichaean, language.Phags_Pa, language.Psalter_Pahlavi, language.Sogdian:
-		return "arabic"
-	case language.Hebrew:
-		return "hebrew"
-	case language.Hangul:
-		return "hangul"
-	case language.Thai, language.Lao:
-		return "thai"
-	case language.Devanagari, language.Bengali, language.Gujarati, language.Gurmukhi, language.Kannada, language.Malayalam, language.Oriya, language.Tamil, language.Telugu:
-		return "indic"
-	case language.Khmer:
-		return "khmer"
-	case language.Myanmar:
-		return "myanmar"
-	case language.Latin, language.Greek, language.Cyrillic, language.Common, language.Inherited, language.Unknown, language.Han, language.Hiragana, language.Katakana, language.Armenian, language.Georgian:
-		return "default"
-	}
-	return "use-or-default"
 }
 
 func c05Run(tier, shard string, r *mc.Reporter) {
